@@ -102,7 +102,10 @@ class ExprMixin:
             self.assume(e == z3.Exists([x], z3.Select(v.arr, x)))
             return e
         if isinstance(v, VMap):
-            raise OutOfSubset("truthiness of symbolic dict")
+            e = self.fresh_const("map_nonempty", z3.BoolSort())
+            x = z3.Const("x!mne", key_sort(v.k))
+            self.assume(e == z3.Exists([x], z3.Select(v.present, x)))
+            return e
         raise OutOfSubset(f"truthiness of {v!r}")
 
     def test(self, node, env) -> bool:
@@ -534,9 +537,10 @@ class ExprMixin:
         raise OutOfSubset(f"`in` on {cont!r}")
 
     def map_key(self, m: VMap, k: V):
-        ts = pack(k, m.k)
-        assert len(ts) == 1
-        return ts[0]
+        try:
+            return key_term(m.k, pack(k, m.k))
+        except AssertionError:
+            raise OutOfSubset(f"map key {k!r} does not have the declared key type {m.k}")
 
     def compare(self, op, a: V, b: V):
         if isinstance(op, ast.Eq):
